@@ -69,7 +69,7 @@ func applyStructuralFaults(r *rand.Rand, g *Graph) []string {
 		}
 		f := pick(r, g.Families)
 		p := pick(r, g.People)
-		kind := r.IntN(19)
+		kind := r.IntN(20)
 		switch kind {
 		case 0:
 			applied = append(applied, "missing-spouse-record")
@@ -104,6 +104,11 @@ func applyStructuralFaults(r *rand.Rand, g *Graph) []string {
 				p = g.People[0] // the first row of a result decides the columns of a table
 			}
 			p.Names = nil
+		case 18:
+			// a name that reads like one of the site's own pages
+			applied = append(applied, "name-like-a-page")
+			p.Names = []string{pick(r, []string{"Individuals /Unlinked/", "Individuals (unknown)", "Places /Of Interest/", "Families", "Sources /S/",
+				"Surnames /A/", "Statistics", "Index", "Individuals /Symbol/", "individuals /a/"})}
 		case 17:
 			// a NAME line without a value, the parts below it
 			applied = append(applied, "name-only-in-parts")
@@ -125,6 +130,15 @@ func applyStructuralFaults(r *rand.Rand, g *Graph) []string {
 			case 0:
 				q := *p
 				q.Names = []string{"Dup /Licate/"}
+				// (its events are its own: two records that are the same
+				// line for line cannot be told apart by anything but their
+				// addresses, and the order of such twins in pointer-keyed
+				// maps is the one thing the simulator does not decide)
+				q.Events = nil
+				for k, e := range p.Events {
+					e.Date = fmt.Sprintf("%d Jan %d", 1+k, 1700+i)
+					q.Events = append(q.Events, e)
+				}
 				g.People = append(g.People, &q)
 			case 1:
 				g.Families = append(g.Families, &Family{Ptr: p.Ptr, Husb: p.Ptr})
@@ -301,6 +315,7 @@ func runCommandCase(t *testing.T, c *Case) *CaseResult {
 		}
 		cr.Valid = true
 		cr.Recorded = &run.res.Recorded
+		cr.Trace = run.res.Trace
 		cr.Probes["via=cli"]++
 		cliOutcome(cr, prop, run, what)
 		return cr
